@@ -16,7 +16,7 @@
 (*            denotes when written in defsrc, as a layer action, as a        *)
 (*            deflayermap input, in the process-unmapped-keys exception list *)
 (*            and in defoverrides (observed through the real parser)         *)
-(*   LkRows   Seq([n, lk, obs]): the name n observed under the                *)
+(*   LkRows   Seq([i, n, lk, obs]): (row i) the name n observed under the     *)
 (*            deflocalkeys-linux block lk = Seq([n, c]) (<<>>: no block) in   *)
 (*            every configuration position that takes a key name; obs =       *)
 (*            Seq([p |-> position, v |-> code held there]); v = -1: the        *)
@@ -66,13 +66,18 @@ T_NopNames == \A k \in 0..9 : \E i \in DOMAIN Names : Names[i].n = NopName(k) /\
 \* else in the configuration"; docs/locales.adoc gives built-in names (z, y, <, ;, ...) a new code this way.  So the
 \* code a name denotes is a function of the name and the block only: the block's code when the block names it,
 \* the built-in code otherwise - in every position, and whatever was parsed before.
+\* (the tables are passed as arguments so that TLC evaluates the generated constants once)
 LkHas(lk, n) == \E i \in DOMAIN lk : lk[i].n = n
 LkCode(lk, n) == lk[CHOOSE i \in DOMAIN lk : lk[i].n = n].c
-NameKnown(n) == \E i \in DOMAIN Names : Names[i].n = n
-BuiltinCode(n) == Names[CHOOSE i \in DOMAIN Names : Names[i].n = n].c
-Denotes(n, lk) == IF LkHas(lk, n) THEN LkCode(lk, n) ELSE IF NameKnown(n) THEN BuiltinCode(n) ELSE 0 - 9
-LkBad(r) == {i \in DOMAIN r.obs : ~PosOk(r.obs[i].v, Denotes(r.n, r.lk))}
-T_LkPositions == \A i \in DOMAIN LkRows : LkBad(LkRows[i]) = {}
+NameKnown(names, n) == \E i \in DOMAIN names : names[i].n = n
+BuiltinCode(names, n) == names[CHOOSE i \in DOMAIN names : names[i].n = n].c
+DenotesIn(names, n, lk) == IF LkHas(lk, n) THEN LkCode(lk, n)
+                           ELSE IF NameKnown(names, n) THEN BuiltinCode(names, n) ELSE 0 - 9
+Denotes(n, lk) == DenotesIn(Names, n, lk)
+LkBadIn(names, r) == LET d == DenotesIn(names, r.n, r.lk) IN {i \in DOMAIN r.obs : ~PosOk(r.obs[i].v, d)}
+RowsOf(s) == {s[i] : i \in DOMAIN s}
+LkAllOk(names, rows) == \A r \in RowsOf(rows) : LkBadIn(names, r) = {}
+T_LkPositions == LkAllOk(Names, LkRows)
 
 Global == /\ T_DiscEqual /\ T_EnumInjective /\ T_FromTotal /\ T_FromInEnum
           /\ T_NamesFunctional /\ T_NamesInDomain /\ T_NamePositions /\ T_NopNames /\ T_LkPositions
@@ -95,6 +100,13 @@ Unreachable == OscDisc \ FromDom
 VARIABLE code
 TInit == code = 0
 TNext == code < 65535 /\ code' = code + 1
+LkReport(names, rows) ==
+  \A r \in RowsOf(rows) :
+    LET bad == LkBadIn(names, r) IN
+    bad = {} \/ PrintT(<<"TERR", ToJson([req |-> IF r.lk = <<>> THEN "a key name denotes different codes in different positions"
+                                                  ELSE "under deflocalkeys a key name does not denote the same code in every position",
+                                         row |-> r.i, n |-> r.n, lk |-> r.lk, denotes |-> DenotesIn(names, r.n, r.lk),
+                                         differs |-> {r.obs[j] : j \in bad}])>>)
 \* failing requirements are printed (all of them), the run goes on
 GlobalProbe == code = 0 =>
   /\ (T_DiscEqual \/ PrintT(<<"TERR", ToJson([req |-> "discriminant sets of KeyCode and OsCode differ",
@@ -109,12 +121,7 @@ GlobalProbe == code = 0 =>
         names |-> {NamePos[i] : i \in {j \in DOMAIN NamePos :
                      LET r == NamePos[j] IN ~(PosOk(r.src, r.c) /\ PosOk(r.act, r.c) /\ PosOk(r.lmap, r.c)
                                               /\ PosOk(r.exc, r.c) /\ PosOk(r.ovr, r.c))}}])>>))
-  /\ \A i \in DOMAIN LkRows :
-       LET r == LkRows[i] IN
-       LkBad(r) = {} \/ PrintT(<<"TERR", ToJson([req |-> IF r.lk = <<>> THEN "a key name denotes different codes in different positions"
-                                                           ELSE "under deflocalkeys a key name does not denote the same code in every position",
-                                                  row |-> i, n |-> r.n, lk |-> r.lk, denotes |-> Denotes(r.n, r.lk),
-                                                  differs |-> {r.obs[j] : j \in LkBad(r)}])>>)
+  /\ LkReport(Names, LkRows)
   /\ (T_NopNames \/ PrintT(<<"TERR", ToJson([req |-> "nop0..nop9 do not denote the reserved no-op codes 0x2a4..0x2ad"])>>))
   /\ PrintT(<<"TNOTE", ToJson([unreachable |-> Unreachable, pseudo |-> Pseudo])>>)
 CodeProbe ==
